@@ -18,11 +18,14 @@ type Exp struct {
 	// additionalProperties on an object with properties); nil = not asserted.
 	Addl    map[string]json.RawMessage `json:"addl,omitempty"`
 	HasAddl bool                       `json:"has_addl,omitempty"`
-	Elems   []*Exp                     `json:"elems,omitempty"`
-	S       string                     `json:"s,omitempty"`
-	Fmt     string                     `json:"fmt,omitempty"`
-	Raw     json.RawMessage            `json:"raw,omitempty"`
-	B       bool                       `json:"b,omitempty"`
+	// Exact: the struct must not carry json-tagged fields other than Props (allOf/anyOf: the
+	// generated type exposes exactly the union of the branches' properties).
+	Exact bool            `json:"exact,omitempty"`
+	Elems []*Exp          `json:"elems,omitempty"`
+	S     string          `json:"s,omitempty"`
+	Fmt   string          `json:"fmt,omitempty"`
+	Raw   json.RawMessage `json:"raw,omitempty"`
+	B     bool            `json:"b,omitempty"`
 }
 
 func raw(v jv.V) json.RawMessage { return json.RawMessage(v.Marshal()) }
@@ -47,7 +50,7 @@ func expect(n *model.Node, v jv.V, depth int) *Exp {
 	case model.KEnum:
 		return &Exp{K: "enum", Raw: raw(v)}
 	case model.KAllOf, model.KAnyOf:
-		out := &Exp{K: "obj", Props: map[string]*Exp{}}
+		out := &Exp{K: "obj", Props: map[string]*Exp{}, Exact: true}
 		if v.K != jv.Obj {
 			return &Exp{K: "skip"}
 		}
